@@ -18,6 +18,8 @@ from common import driver, sx
 from props import c21_gen as G, c21_real as R, c21_atoms as A
 
 PROP = "C21"
+REFUSALS = ("ParseError", "GenerationError", "NotImplementedError", "FieldNotFoundError")
+MAX_REPORTS = 4     # failing inputs written as replay files per run (all are counted)
 
 
 def gen():
@@ -55,6 +57,10 @@ DOC_CLASSES = {
 
 def property_on_real(md, res):
     """None, or the description of the failure of the property on the real code."""
+    if res["stub"] is not None and res["call"] is None and md["operates_on"] != "dof":
+        err = res["call_err"] or ""
+        if not err.startswith(REFUSALS):
+            return ("a stub is generated but PSy-layer generation for the same metadata crashes: " + err[:160])
     if res["stub"] is None or res["call"] is None:
         return None
     return R.compare(res["stub"], res["call"])
@@ -67,10 +73,11 @@ def check_case(chk, md, res, model, stream, stats):
     nontrivial = res["call"] is not None and len(md["args"]) >= 2
     agreed = True
     if why:
-        chk.violation({"kind": "failing-input", "metadata": md, "observed": why,
-                       "expected": "stub dummy list and PSy-layer actual list agree in count, type, kind, rank",
-                       "stub": res["stub"], "call": res["call"]})
         stats["violations"] += 1
+        if stats["violations"] <= MAX_REPORTS:
+            chk.violation({"kind": "failing-input", "metadata": md, "observed": why,
+                           "expected": "stub dummy list and PSy-layer actual list agree in count, type, kind, rank",
+                           "stub": res["stub"], "call": res["call"]})
         return True
     if md["operates_on"] == "dof":
         # user-supplied DoF kernels: the pinned PSyclone has no code generation for them (outside Valid)
@@ -107,9 +114,10 @@ def check_case(chk, md, res, model, stream, stats):
                     if cls and real_atoms == model_atoms:
                         stats["doc_known:" + cls[0]] += 1
                     else:
-                        chk.violation({"kind": "failing-input", "clause": "documented order", "metadata": md,
-                                       "observed": real_atoms, "expected": doc_atoms})
                         stats["violations"] += 1
+                        if stats["violations"] <= MAX_REPORTS:
+                            chk.violation({"kind": "failing-input", "clause": "documented order", "metadata": md,
+                                           "observed": real_atoms, "expected": doc_atoms})
                         return True
     chk.case({"md": md, "stream": stream}, nontrivial=nontrivial, agreed=agreed)
     return False
@@ -145,7 +153,7 @@ def run(chk):
         "translator harness/props/c21_atoms.py (probe kernels -> Gen/ArgOrder.lean), name-based classification of "
         "arguments into atoms", "fparser2 parse of the generated stub / PSy layer (harness/props/c21_real.py)"]
     lean_ok = chk.lean(gen=gen)
-    ncases = 300 if chk.tier == "thorough" else 55
+    ncases = 300 if chk.tier == "thorough" else 45
     nbad = 60 if chk.tier == "thorough" else 8
     cases = [("corpus", md) for md in corpus()]
     cases += [("valid", G.gen_valid(chk.rng)) for _ in range(ncases)]
